@@ -798,6 +798,9 @@ func (u *Unit) scanCallWrites(fr *frame, call *ssa.CallCommon, instr ssa.Value, 
 		if n, ok := call.Value.Type().(*types.Named); ok && n.Obj().Pkg() != nil && isNoopCallee(n.Obj().Pkg().Path(), call.Method.Name()) {
 			return
 		}
+		if isErrorType(call.Value.Type()) && call.Method.Name() == "Error" {
+			return // read-only
+		}
 		impls := u.w.implementations(call.Value.Type(), call.Method)
 		if len(impls) > 0 && len(impls) <= 4 {
 			// the case split applies at execution; unknown dynamic types havoc on an (expected unreachable) path
@@ -914,15 +917,15 @@ func (u *Unit) scanContractWritesAt(c *Contract, ws *writeSet, call *ssa.CallCom
 		argv = append(argv, call.Value)
 	}
 	argv = append(argv, call.Args...)
-	for _, a := range argv {
-		if !stableBase(a, inLoop, deps, 0) {
-			return false
-		}
-	}
 	params := map[string]Value{}
 	vals := make([]Value, len(argv))
 	for i, a := range argv {
-		vals[i] = u.evalStable(u.scanEntry, a)
+		if stableBase(a, inLoop, deps, 0) {
+			vals[i] = u.evalStable(u.scanEntry, a)
+		} else {
+			// loop-variant argument: a placeholder; if a modifies target turns out to depend on it we give up below
+			vals[i] = u.namedFreshValue(a.Type(), fmt.Sprintf("scan_unstable_%d", i))
+		}
 	}
 	off := 0
 	if call.IsInvoke() || (callee != nil && callee.Signature.Recv() != nil) {
@@ -982,6 +985,18 @@ func (u *Unit) scanContractWritesAt(c *Contract, ws *writeSet, call *ssa.CallCom
 	for f := range u.touched {
 		if !before[f] {
 			deps[f] = true // families read while locating the targets must not change in the loop
+		}
+	}
+	for _, it := range items {
+		txt := it.idx.S
+		if it.key != nil {
+			txt += it.key.S
+		}
+		if it.rngArr != nil {
+			txt += it.rngArr.S + it.rngLo.S + it.rngHi.S
+		}
+		if strings.Contains(txt, "scan_unstable_") {
+			return false
 		}
 	}
 	for _, it := range items {
